@@ -73,3 +73,12 @@ Theorem C14_freesurfer_wrong_magic_rejected : forall (K : Type) a b c (rest : IO
   IOFs.is_tria_magic a b c = false -> IOFs.read_fs (IOFs.FMagic a b c :: rest) = IOFs.FsErr IOFs.FsValueError.
 Proof. exact @IOFsP.fs_wrong_magic. Qed.
 Print Assumptions C14_freesurfer_wrong_magic_rejected.
+
+(* Gmsh 2 ASCII tetrahedral files written by other tools per the format definition (arbitrary node / element ids and tag
+   values, any constant number of tags, 1-based node numbers) load to the mesh they describe with zero-based indices *)
+Theorem C14_gmsh_file_loads_zero_based : forall (K : Type) (round32 : K -> K) (zK : Z -> K) ver dsize
+  (ns : list (Z * (K * K * K))) (es : list (Z * list Z * tet)) ntags,
+  es <> [] -> Forall (fun e => length (snd (fst e)) = ntags) es ->
+  read_gmsh round32 zK (lines_of (gmsh_lines ver dsize ns es)) = Some (map (fun n => r3 round32 (snd n)) ns, map snd es).
+Proof. exact @gmsh_file_loads. Qed.
+Print Assumptions C14_gmsh_file_loads_zero_based.
